@@ -301,9 +301,25 @@ def rule_enq(R):
 def rule_store(R):
     f = R.f
     st = "mqtt_client::outbound::SendState"
-    sw = roles.method(f, st, "set_written")
+    pure = False
+    try:
+        sw = roles.method(f, st, "set_written")
+    except AnchorLost:
+        # the pure form: an associated function `fn(written, len) -> SendState` whose result the setters store
+        cands = [b_ for b_ in f.bodies.values() if b_.kind == "assoc_fn" and b_.self_ty and b_.self_ty.startswith(st)
+                 and b_.arg_count == 2 and b_.locals[0]["ty"].startswith(st) and not f.in_fuzzing(b_)
+                 and [b_.locals[k_]["ty"] for k_ in (1, 2)] == ["usize", "usize"]]
+        if len(cands) != 1:
+            raise
+        sw, pure = cands[0], True
     R.touch(sw)
-    stores = [(bb, sw.rvalue_term(rv)) for (bb, j, dst, rv, s) in sw.stores() if dst["proj"] == ["deref"]]
+    if pure:
+        stores = [(0, sw.local_term(0))]
+    else:
+        stores = [(bb, sw.rvalue_term(rv)) for (bb, j, dst, rv, s) in sw.stores() if dst["proj"] == ["deref"]]
+    # by position: the first count parameter is `written`, the second `len` (names are checked where they are the reference's)
+    pw = sw.param_name(1 if pure else 2)
+    pl = sw.param_name(2 if pure else 3)
     ok = len(stores) == 1
     if ok:
         alts = phi_alts(stores[0][1])
@@ -312,15 +328,22 @@ def rule_store(R):
             if a[0] == "agg" and a[2] == st:
                 kinds[a[3]] = a
         w = kinds.get("Write")
-        ok = set(kinds) == {"Write", "Flush"} and w is not None and w[5][0] == ("param", "written")
+        ok = set(kinds) == {"Write", "Flush"} and w is not None and w[5][0] == ("param", pw)
         # Flush only on the written >= len edge
         if ok:
             okf = False
             for sbb in sw.switches:
                 si = sw.switch_info(sbb)
                 sj = si["subject"]
-                if sj[0] == "bin" and sj[1] in ("Ge", "Le", "Lt", "Gt") and {peel(sj[2]), peel(sj[3])} == {("param", "written"), ("param", "len")}:
-                    okf = True
+                if sj[0] == "bin" and sj[1] in ("Ge", "Le", "Lt", "Gt") and {peel(sj[2]), peel(sj[3])} == {("param", pw), ("param", pl)}:
+                    # Flush on `written >= len` (however spelled): the edge on which the Flush aggregate is built
+                    a_, b_ = peel(sj[2]), peel(sj[3])
+                    op_ = sj[1] if a_ == ("param", pw) else {"Ge": "Le", "Le": "Ge", "Lt": "Gt", "Gt": "Lt"}[sj[1]]
+                    lab_ = {"Ge": True, "Lt": False}.get(op_)
+                    fl_blocks = [bb_ for bb_, j_, s_ in sw.assigns() if "agg" in s_["rv"] and s_["rv"]["agg"].get("variant") == "Flush"]
+                    if lab_ is not None and si["edges"].get(lab_) is not None and fl_blocks and \
+                            all(sw.must_pass([0], [fb_], via_edges=[(sbb, si["edges"][lab_])])[0] for fb_ in fl_blocks):
+                        okf = True
             ok = okf
     R.ob("store/set_written", ok,
          "SendState::set_written records exactly the count it is given (Write{written}) and moves to Flush only when "
@@ -334,7 +357,8 @@ def rule_store(R):
         # which of the setter's own parameters (by position, whatever they are called) reach set_written's `written` and `len`
         okc = len(cs) == 1
         if okc:
-            wt, lt = peel(cs[0][1](cs[0][0].args[1])), peel(cs[0][1](cs[0][0].args[2]))
+            o_ = 0 if pure else 1
+            wt, lt = peel(cs[0][1](cs[0][0].args[o_])), peel(cs[0][1](cs[0][0].args[o_ + 1]))
             pn = {b.param_name(k): k - 1 for k in range(1, b.arg_count + 1)}
             okc = wt[0] == "param" and lt[0] == "param" and wt[1] in pn and lt[1] in pn and wt[1] != lt[1]
             # a parameter called `len` handed on as the count (or the reverse) is a swap inside the setter
@@ -430,9 +454,14 @@ def rule_store(R):
             if sb not in pcode.reachable:
                 continue
             si = pcode.switch_info(sb)
-            sj = peel(si["subject"])
-            if sj[0] != "bin" or sj[1] not in ("Lt", "Ge", "Gt", "Le", "Eq", "Ne"):
+            # the test itself, or a flag that carries it (`(packet, written >= len)` ... `if fully_written`): of the values
+            # the flag may have, the one computed from the byte count is the one that reaches here from the write
+            cands = [peel(x) for x in phi_alts(peel(si["subject"]))]
+            cands = [x for x in cands if x[0] == "bin" and x[1] in ("Lt", "Ge", "Gt", "Le", "Eq", "Ne")
+                     and any(is_count_call(y) for y in walk(x) if isinstance(y, tuple))]
+            if len(cands) != 1:
                 continue
+            sj = cands[0]
             a, b2 = sj[2], sj[3]
             ca = any(is_count_call(y) for y in walk(a) if isinstance(y, tuple))
             cb = any(is_count_call(y) for y in walk(b2) if isinstance(y, tuple))
